@@ -54,10 +54,12 @@ func (boltkv *BoltKV) Get(id []byte) ([]byte, error) {
 	var out []byte
 	err := boltkv.db.View(func(tx *bolt.Tx) error {
 		b := tx.Bucket(graphBucket)
-		out = b.Get(id)
-		if out == nil {
+		v := b.Get(id)
+		if v == nil {
 			return fmt.Errorf("Not Found")
 		}
+		//the slice bolt returns is only valid inside the transaction
+		out = append([]byte{}, v...)
 		return nil
 	})
 	return out, err
